@@ -17,7 +17,24 @@ list box is rendered (as a main loop does) and judged.  Histories that lead to t
 state signature (size, every item's text/cursor/preferred column, walker focus, offset_rows,
 inset_fraction, pref_col, pending focus / alignment requests, the rows and cursor just rendered,
 whether the canvas cache holds this view) are merged: only the first is extended.  Every extension is
-executed from scratch on fresh widgets (no state is copied).
+executed from scratch on fresh widgets (no state is copied).  A second family of configurations
+(cfg["render"] = "sparse" / "cold") applies several operations between two renders, as one callback of
+an application would (plain enumeration, nothing merged).
+
+Readings of the statement fixed here (see also spec/listwindow.py):
+ * "its items' renderings" = what each item's own render((maxcol,), focus) yields, with the focus flag
+   the list box passes (its own flag for the focus item, False for the others).  Two false alarms of a
+   first formulation were corrected: a focused Edit shifts a full line to keep the cursor on screen, and
+   an Edit that lost the focus may still return that shifted row (an Edit/Text cache fault, not the
+   list box's) - see `_clone` and `World.rows_per_item`.
+ * The last rendered canvas is kept referenced until the next render (the screen does the same), so
+   the canvas cache behaves as under a main loop.
+ * "At least one row of the focus item is visible" is not applicable when the focus item has 0 rows.
+ * The statement only says that *rendering* never raises; an operation (keypress, mouse_event, ...)
+   that raises is recorded under the separate check C07/event-no-raise, with valid positions only
+   (set_focus on an empty list or to a missing position is never generated).
+ * "A button-1 press on a visible selectable item": visible = shown by the render that precedes the
+   press (same size, focus=True), which is what the user sees and points at.
 """
 from __future__ import annotations
 
@@ -772,6 +789,7 @@ def tasks_for(tier):
         tasks.append((_cfg(["s1", "t3", "s1"], (3, 2), "min"), 2, full, 10))
         tasks.append((_cfg(["t3", "e3.4", "t3"], (3, 2), "sflw", False), 2, full, 10))
         tasks.append((_cfg(["s1", "t7", "e1.1"], (3, 3), "slw", False), 2, full, 10))
+        tasks.append((_cfg(["z0", "i7.19"], (3, 2), "key"), 2, full, 10))  # 0-row item above a tall fixed-cursor item
     else:
         for j, kinds in enumerate(CURATED):
             for wi, w in enumerate(WALKERS):  # every list with every walker, boxes rotating
